@@ -365,6 +365,11 @@ def evaluate(spec, rec, refs):
                 tainted.add(i)
                 detail = f"isolated reference: {ref['st']} {ref['dg']} {_short(ref.get('enc'))}; observed: {o['st']} {o['dg']} {_short(o.get('enc'))}"
                 out.append({"prop": prop, "clause": "differs_from_isolated_reference", "c": c, "i": i, "op": o["op"], "key": o["key"], "detail": detail})
+                if o.get("again") is not None and o["op"] in ("canon", "serialize"):
+                    # the same call repeated on the same object (possibly after an
+                    # interrupted attempt) must still give the result: C12's
+                    # "can be repeated on the same object with identical results"
+                    out.append({"prop": "C12", "clause": "repeat_differs_from_reference", "c": c, "i": i, "op": o["op"], "key": o["key"], "detail": detail})
             elif o["op"] == "write" and o["st"] == "ok" and refs.hdr_diff(ref.get("hdr"), o.get("hdr")):
                 out.append({"prop": "C14", "clause": "header_differs_outside_timestamp", "c": c, "i": i, "op": "write", "key": o["key"], "detail": refs.hdr_diff(ref.get("hdr"), o.get("hdr"))})
             if (c, i) in flagged:
